@@ -110,6 +110,9 @@ def _format_binary_recurse(something) -> bytes:
     elif isinstance(something, uri):
         return b'l' + struct.pack('!i', len(something)) + something.encode("utf8")
     elif isinstance(something, datetime.datetime):
+        if something.tzinfo is None:
+            # Naive datetimes are UTC by LLSD convention, not local time
+            something = something.replace(tzinfo=datetime.timezone.utc)
         return b'd' + struct.pack('<d', something.timestamp())
     elif isinstance(something, datetime.date):
         seconds_since_epoch = calendar.timegm(something.timetuple())
